@@ -7,6 +7,7 @@ from ..astutil import dotted, method_call
 from ..cfg import cfg_of, fact_key, norm, walk_own
 from ..consteval import Scope, fold_in
 from ..mutate import B, M
+from .c03 import toc_lookup_rules
 from ..symexec import paths_of, paths_of_block
 
 PROP = 'C05'
@@ -26,7 +27,7 @@ EXPLANATION = (
     'decoded in order with the table\'s format and size for fetch_as; R8 SyncLogger: samples enter one FIFO in callback order, leave one '
     'per __next__, the disconnect sentinel is queued after disconnect().')
 ASSUMPTIONS = ['firmware reads log block records as type byte + 16-bit id (TOC) / 32-bit address (memory)']
-FLOORS = {'R1': 8, 'R2': 10, 'R3': 4, 'R4': 3, 'R5': 1, 'R6': 8, 'R7': 8, 'R8': 5}
+FLOORS = {'R9': 5, 'R1': 8, 'R2': 10, 'R3': 4, 'R4': 3, 'R5': 1, 'R6': 8, 'R7': 8, 'R8': 5}
 
 
 def check(ctx):
@@ -202,6 +203,15 @@ def check(ctx):
         ctx.inst('R6', f, 'flag-callback', body == ['if %s != self._%s:\n    self.%s_cb.call(self, %s)' % (f.params[1], prop_name, prop_name, f.params[1]), 'self._%s = %s' % (prop_name, f.params[1])],
                  '%s notifies on change and stores the flag' % setter)
 
+    drops = [n for n in g.nodes if n.kind == 'stmt' and ((isinstance(n.ast, ast.Assign) and norm(n.ast.targets[0]) == 'self.log_blocks') or
+                                                       (isinstance(n.ast, ast.Expr) and method_call(n.ast.value, 'clear') and norm(n.ast.value.func.value) == 'self.log_blocks'))]
+    tocs = [n for n in g.nodes if n.kind == 'stmt' and isinstance(n.ast, ast.Assign) and norm(n.ast.targets[0]) == 'self.toc' and norm(n.ast.value) == 'Toc()']
+    ok = len(drops) == 1 and len(tocs) == 1 and g.fact_keys_at(drops[0]) == g.fact_keys_at(tocs[0]) and fact_key('self.toc', False) in g.fact_keys_at(drops[0]) and \
+        fact_key('cmd == CMD_RESET_LOGGING', True) in g.fact_keys_at(drops[0])
+    ctx.inst('R6', cb, 'blocks-dropped-only-with-toc-download', ok,
+             'live blocks may be forgotten only by the first reset acknowledgement of a connection (the one that starts the TOC download, `not self.toc`); a duplicated or '
+             'late reset reply must not drop blocks added since')
+
     # ---- R7 ---------------------------------------------------------------------------------------
     dn = [n for n in g.nodes if n.kind == 'stmt' and isinstance(n.ast, ast.Assign) and norm(n.ast.targets[0]) in ('timestamps', 'timestamp', 'logdata', 'id', 'block')
           and fact_key('chan == CHAN_LOGDATA', True) in g.fact_keys_at(n)]
@@ -259,6 +269,10 @@ def check(ctx):
              'each configuration is added, hooked and started once, in that order; body %s' % b2)
     reg = [c for c in walk_own(con.node) if method_call(c, 'add_callback') and norm(c.func.value) == 'self._cf.disconnected']
     ctx.inst('R8', con, 'disconnect-hook', len(reg) == 1 and [norm(a) for a in reg[0].args] == ['self._disconnected'], 'connect registers the disconnect hook')
+
+
+    # ---- R9: table look-ups used by this subsystem (shared rule, see C03.R8) -----------------
+    toc_lookup_rules(ctx, 'R9')
 
 
 def fold_size(f, size):
